@@ -315,7 +315,7 @@ def tt_irenumber(
             start = r.start or 0
             stop = r.stop or shape[i]
             newsubs[:, i] = np.arange(start, stop + 1)[newsubs[:, i]]
-        elif isinstance(r, int):
+        elif isinstance(r, (int, np.integer)):
             # This appears to be inserting new keys as rows to our subs here
             newsubs = np.insert(newsubs, obj=i, values=r, axis=1)
         else:
